@@ -28,6 +28,11 @@ def main():
                 res['error'] = out[-500:]; raise Exception('patch does not apply')
             rc, out = sh('go build ./... && go test -count=1 ./... 2>&1 | tail -40', wt)
             res['suite_pass_with_change'] = rc == 0 and 'FAIL' not in out
+            for _ in range(2):  # timing-sensitive tests of the suite flake under machine load (F10): re-run before deciding
+                if res['suite_pass_with_change']: break
+                res['suite_retried'] = res.get('suite_retried', 0) + 1
+                rc, out = sh('go test -count=1 ./... 2>&1 | tail -40', wt)
+                res['suite_pass_with_change'] = rc == 0 and 'FAIL' not in out
             res['suite_tail'] = out[-600:] if not res['suite_pass_with_change'] else ''
             for d in demos: shutil.copy(d, os.path.join(wt, demo_dir, 'zz_' + os.path.basename(d)))
             run = meta.get('demo_run', '')
